@@ -6,6 +6,7 @@ import (
 	"go/token"
 	"go/types"
 	"sort"
+	"strings"
 
 	"golang.org/x/tools/go/ssa"
 
@@ -353,6 +354,47 @@ var ruleTar = &core.Rule{ID: "R18.1", Min: 8,
 		for _, ci := range core.Calls(h) {
 			if call, ok := ci.(*ssa.Call); ok && core.CalleeIs(&call.Call, "bytes", "Trim") && call.Call.Args[0] == ssa.Value(h.Params[0]) {
 				ranged = call
+			}
+		}
+		// padding: the field is digits with NULs / spaces before and after (historic and current writers differ), so
+		// both ends are stripped of exactly these two bytes
+		{
+			left, right, cutBad := false, false, ""
+			for _, ci := range core.Calls(h) {
+				cc := ci.Common()
+				g := cc.StaticCallee()
+				if g == nil || g.Pkg == nil || g.Pkg.Pkg.Path() != "bytes" || !strings.HasPrefix(g.Name(), "Trim") || len(cc.Args) < 2 {
+					continue
+				}
+				set, isK := core.ConstString(cc.Args[1])
+				if !isK {
+					continue
+				}
+				if !strings.Contains(set, " ") || !strings.Contains(set, "\x00") || strings.ContainsAny(set, "01234567") {
+					cutBad = fmt.Sprintf("%s with cutset %q", g.Name(), set)
+				}
+				switch g.Name() {
+				case "Trim":
+					left, right = true, true
+				case "TrimLeft":
+					left = true
+					if call, ok := ci.(*ssa.Call); ok && ranged == nil {
+						ranged = call
+					}
+				case "TrimRight":
+					right = true
+					if call, ok := ci.(*ssa.Call); ok {
+						ranged = call
+					}
+				}
+			}
+			switch {
+			case cutBad != "":
+				s.Bad("checksum field padding", c.Pos(h.Pos()), "the checksum field is trimmed by "+cutBad+": padding is NUL and space; an octal digit in the cutset eats digits of the number, a missing NUL or space leaves padding that the digit loop rejects")
+			case left != right:
+				s.Bad("checksum field padding", c.Pos(h.Pos()), fmt.Sprintf("NUL / space padding of the checksum field is removed %s only: fields laid out as `digits NUL space` (or `space digits`) parse as -1 and conforming archives are rejected", map[bool]string{true: "in front", false: "behind"}[left]))
+			case left && right:
+				s.OK("checksum field padding", c.Pos(h.Pos()), "NUL and space stripped on both sides")
 			}
 		}
 		if ranged == nil {
